@@ -158,6 +158,9 @@ Inductive spec :=
 | SLabelValues (events : list (str * Z))
 (* C03/C04 with a user-declared bus: every unrelocated ROM byte sits at the offset the declared ranges give *)
 | SUserOffsets (ranges : list mapping) (ns : list tnode)
+(* a program the harness wrote to be valid: it must assemble (keeps hand-written cases from being vacuous, and turns
+   "a valid program is refused" into a failing input of its own) *)
+| SAccept
 | SAnd (a b : spec).
 
 Definition nth_z {A} (l : list A) (i : nat) : option A := nth_error l i.
@@ -184,6 +187,7 @@ Fixpoint spec_ok (s : spec) (impl : obs asmobs) : bool :=
   match s with
   | SAnd a b => spec_ok a impl && spec_ok b impl
   | SUserOffsets ranges ns => match impl with OOk _ => user_offsets_ok ranges ns false | _ => true end
+  | SAccept => match impl with OOk _ => true | _ => false end
   | SLabelValues events =>
       match impl with
       | OOk (_, labels) => forallb (fun nv => existsb (label_eqb nv) events) labels
@@ -232,7 +236,15 @@ Fixpoint spec_ok (s : spec) (impl : obs asmobs) : bool :=
           end
         else obs_is_err impl
       else if is_ram high p || is_ram high t then obs_is_err impl
-      else true
+      else
+        (* both in ROM, different banks: a target whose file distance is out of reach must be refused ("a target
+           outside -128..+127 bytes is rejected; a displacement is never truncated or wrapped into range"); the
+           few bytes around a bank end, where the file distance is within reach, are left to the correspondence *)
+        match rom_offset high p, rom_offset high t with
+        | Some op', Some ot =>
+            if (-128 <=? ot - (op' + 2)) && (ot - (op' + 2) <=? 127) then true else obs_is_err impl
+        | _, _ => true
+        end
   | STrace labels pass1 em =>
       match impl with
       | OOk _ =>
